@@ -67,11 +67,30 @@ def explore(out, tier, second=0):
             n += 1
             out.add_case((sc['dll'], sc['kind'], sc['win'], h['s'], h['k'], h['d']), True,
                          sample=dict(dll=sc['dll'], kind=sc['kind'], window=sc['win'], hold=h, held_at=held) if len(out.samples) < 4 else None)
-            for x in oracle(sc, res):
+            for x in oracle(sc, res) + same_as_undisturbed(base, res):
                 key = x['kind']
                 if key not in worst:
                     worst[key] = (dict(x, held_at=held, hold=h), dict(sc, hold=h))
     return worst, n
+
+
+def same_as_undisturbed(base, res):
+    """'the outcome ... is the same wherever the background thread is suspended ... never leaves a session stuck':
+    the frames on the bus are those of the undisturbed run (no additional abort, no repeated or missing packet) and the
+    stacks are idle again as early as in the undisturbed run, give or take the suspension itself"""
+    from collections import Counter
+    v = []
+    fb = Counter((e[3], tuple(e[6])) for e in base.trace if e[2] == 'tx')
+    fr = Counter((e[3], tuple(e[6])) for e in res.trace if e[2] == 'tx')
+    extra, missing = fr - fb, fb - fr
+    if extra or missing:
+        v.append(dict(kind='frames-differ-from-the-undisturbed-run', extra=[(hex(i), list(d)) for (i, d) in list(extra)[:3]],
+                      missing=[(hex(i), list(d)) for (i, d) in list(missing)[:3]]))
+    lb = max([e[0] for e in base.trace if e[2] == 'tx'] or [0])
+    lr = max([e[0] for e in res.trace if e[2] == 'tx'] or [0])
+    if lr > lb + 50_000:
+        v.append(dict(kind='transfer-ends-later-than-undisturbed', undisturbed_last_frame=lb, last_frame=lr))
+    return v
 
 
 def run(out, tier, rng, work):
